@@ -113,6 +113,8 @@ pub struct WordTable {
     /// words[k] = words of exactly level k
     pub words: Vec<Vec<[u8; 7]>>,
     pub ff: Vec<[u8; 7]>,
+    /// non-zero windows whose rolling value is 0 (indistinguishable from a run of zeros by the value alone)
+    pub zero: Vec<[u8; 7]>,
 }
 
 impl WordTable {
@@ -130,6 +132,15 @@ impl WordTable {
             words.push(v);
         }
         let ff = (0..2).map(|_| find_word_ff(&mut rng)).collect();
-        WordTable { words, ff }
+        let mut zero = Vec::new();
+        while zero.len() < 3 {
+            if let Some(w) = find_word_for_value(0, &mut rng) {
+                if w[6] != 0 && w.iter().filter(|&&b| b != 0).count() >= 4 {
+                    assert_eq!(roll_def(&w), 0);
+                    zero.push(w);
+                }
+            }
+        }
+        WordTable { words, ff, zero }
     }
 }
